@@ -521,12 +521,26 @@ def api(draw, hostile=True, annotate=True, max_callables=6, with_gobject=True):
                            draw(st.sampled_from(['first', 'last', 'cleanup'])),
                            draw(st.sampled_from(['', ' detailed="1"', ' action="1" no-hooks="1"'])),
                            ''.join('<param type="%s"/>' % p for p in ptypes)))
+        # a second interface whose prerequisites are drawn: a class of this namespace (GtkCellEditable requires
+        # GtkWidget), another interface, a class of an included namespace, several of them; optionally implemented
+        extra_iface = ''
+        extra_impl = ''
+        if draw(st.integers(0, 2)) == 0:
+            prereqs = draw(st.lists(st.sampled_from(['FooObj', 'FooIface', 'GObject', 'FooSubObj', 'GInitiallyUnowned']),
+                                    min_size=0, max_size=3, unique=True))
+            decls.append({'d': 'compound', 'kind': 'struct', 'tag': '_FooEditable', 'typedef': 'FooEditable', 'fields': None})
+            decls.append({'d': 'function', 'name': 'foo_editable_get_type', 'ret': T('GType'), 'params': []})
+            extra_iface = ('<interface name="FooEditable" get-type="foo_editable_get_type">%s</interface>\n'
+                           % ''.join('<prerequisite name="%s"/>' % q for q in prereqs))
+            if draw(st.booleans()) and 'FooSubObj' not in prereqs:
+                extra_impl = '<implements name="FooEditable"/>'
         dump = ('<?xml version="1.0"?>\n<dump>\n'
                 '<class name="FooObj" get-type="foo_obj_get_type" parents="GObject">\n<implements name="FooIface"/>\n%s\n%s\n</class>\n'
-                '<class name="FooSubObj" get-type="foo_sub_obj_get_type" parents="FooObj,GObject"></class>\n'
+                '<class name="FooSubObj" get-type="foo_sub_obj_get_type" parents="FooObj,GObject">%s</class>\n'
                 '<interface name="FooIface" get-type="foo_iface_get_type"><prerequisite name="GObject"/></interface>\n'
+                '%s'
                 '<boxed name="FooBoxed" get-type="foo_boxed_get_type"/>\n'
-                '</dump>\n' % ('\n'.join(props), '\n'.join(sigs)))
+                '</dump>\n' % ('\n'.join(props), '\n'.join(sigs), extra_impl, extra_iface))
     else:
         dump = ('<?xml version="1.0"?>\n<dump>\n<boxed name="FooBoxed" get-type="foo_boxed_get_type"/>\n</dump>\n')
     return {'ns': NS, 'includes': ['Gio-2.0', 'FooBar-1.0'], 'decls': decls, 'comments': comments, 'dump': dump,
